@@ -317,6 +317,81 @@ func main() {
 		}
 		b.WriteString("]\n\n")
 	}
+	// decision tables: for the listed functions, every case clause of every (type) switch, in
+	// source order: "case <exprs> | calls <called functions> | guards <protected tests> | ret <first return>"
+	tableFns := []string{"validateHeaderParameters", "validateHashEnvelopeHeaders", "NewSigner", "NewVerifier",
+		"Key.deriveAlgorithm", "curveSize", "KeyOpFromString", "Key.validate", "ProtectedHeader.Algorithm",
+		"ProtectedHeader.PayloadHashAlgorithm", "normalizeLabel", "canUint", "canInt", "countersignToBeSigned",
+		"Headers.ensureSigningAlgorithm", "Headers.ensureVerificationAlgorithm", "Key.UnmarshalCBOR"}
+	for _, fn := range tableFns {
+		fd := funcs[fn]
+		var rows []string
+		if fd == nil {
+			fmt.Fprintln(os.Stderr, "note: function not found:", fn)
+		} else {
+			ast.Inspect(fd.Body, func(n ast.Node) bool {
+				cc, ok := n.(*ast.CaseClause)
+				if !ok {
+					return true
+				}
+				var cases []string
+				for _, e := range cc.List {
+					cases = append(cases, exprString(e))
+				}
+				if cc.List == nil {
+					cases = []string{"default"}
+				}
+				callSet := map[string]bool{}
+				guardSet := map[string]bool{}
+				ret := ""
+				for _, st := range cc.Body {
+					ast.Inspect(st, func(m ast.Node) bool {
+						switch x := m.(type) {
+						case *ast.CaseClause:
+							return false // nested switch: its clauses get their own rows
+						case *ast.CallExpr:
+							switch f := x.Fun.(type) {
+							case *ast.Ident:
+								callSet[f.Name] = true
+							case *ast.SelectorExpr:
+								callSet[exprString(f)] = true
+							}
+						case *ast.IfStmt:
+							c := exprString(x.Cond)
+							if strings.Contains(c, "protected") || strings.Contains(c, "op ==") || strings.Contains(c, "len(") {
+								guardSet[c] = true
+							}
+						case *ast.ReturnStmt:
+							if ret == "" {
+								parts := []string{}
+								for _, r := range x.Results {
+									parts = append(parts, exprString(r))
+								}
+								ret = strings.Join(parts, ", ")
+								if len(ret) > 60 {
+									ret = ret[:60]
+								}
+							}
+						}
+						return true
+					})
+				}
+				keys := func(m map[string]bool) string {
+					var ks []string
+					for k := range m {
+						ks = append(ks, k)
+					}
+					sort.Strings(ks)
+					return strings.Join(ks, ",")
+				}
+				rows = append(rows, "case "+strings.Join(cases, ",")+" | calls "+keys(callSet)+" | guards "+keys(guardSet)+" | ret "+ret)
+				return true
+			})
+		}
+		name := "table_" + strings.NewReplacer(".", "_").Replace(fn)
+		writeList(name, "case clauses of "+fn, rows)
+	}
+
 	sort.Strings(panicSites)
 	sort.Strings(writeSites)
 	writeList("panicSites", "single-value type assertions, slice / index expressions and explicit panics, by (function, expression)", panicSites)
